@@ -56,6 +56,13 @@ CLAIMED["C10"] = (
     "result is compared with the expected structure: no dangling id, survivors untouched, signs/lights kept iff referenced.",
     "universe of 3 lanelets; quick tier: a subset of the flags symbolic, thorough: all flags of the kind; single operations "
     "(sequences are outside the claim); shapely replaced by shapely-lite", "2/C10")
+CLAIMED["C20"] = (
+    "Lanelet.distance / interpolate_position / merge_lanelets run on symbolic 3-vertex polylines (real numpy on object arrays, "
+    "sqrt as a shared fresh non-negative root) and are compared with the arc-length specification; successor / predecessor "
+    "route enumeration runs on every directed graph over 3 (quick) / 4 (thorough) lanelets with symbolic adjacency flags, "
+    "symbolic lanelet lengths and range limit, and every returned route is checked against the stated route rules.",
+    "3 vertices per polyline; graphs of <= 4 lanelets; floats as reals; termination = exhaustion of the path tree within the "
+    "budget", "2/C20")
 NOT_YET = {}
 
 props = [json.loads(l) for l in open(os.path.join(ROOT, "properties.jsonl"))]
